@@ -21,6 +21,13 @@ def run(tier, replay=None):
         if cases[i]:
             c = cases[i][len(cases[i]) // 2]
             res.sample({"program": P["id"], "features": P["features"], "edb": c["edb"], "model": c["model"]})
+    # directions A and T at RAM level: the real RAM program under spec/Ram.tla, and the real interpreter's trace
+    import concurrent.futures as cf
+    from .. import ramcheck
+    with cf.ThreadPoolExecutor(8) as ex:
+        sts = list(ex.map(lambda i: ramcheck.check(Ps[i], cases[i], wd, "p%d" % i, res, "C01", rng=random.Random(seed() + i))
+                          if cases[i] else {"status": "no-cases"}, range(len(Ps))))
+    res.cov["ram_status"] = {k: sum(1 for s in sts if s["status"] == k) for k in set(s["status"] for s in sts)}
     res.cov.update({"programs": len(Ps), "edb_cases_modelled": total, "edb_cases_nontrivial": nontriv,
                     "real_runs_compared": runs})
     return finish(res, "model_checking", assumptions=[
